@@ -50,7 +50,13 @@ fn mode_char(m: &SessionMode) -> char {
     match m {
         SessionMode::PlainText => 'N',
         SessionMode::Pase { .. } => 'P',
-        SessionMode::Case { .. } => 'C',
+        SessionMode::Case { fab_idx, .. } => {
+            if fab_idx.get() == 2 {
+                'D'
+            } else {
+                'C'
+            }
+        }
         SessionMode::Group { .. } => 'G',
     }
 }
@@ -60,6 +66,10 @@ fn mode_of(c: &str) -> SessionMode {
         "P" => SessionMode::Pase { fab_idx: 0 },
         "C" => SessionMode::Case {
             fab_idx: NonZeroU8::new(1).unwrap(),
+            cat_ids: Default::default(),
+        },
+        "D" => SessionMode::Case {
+            fab_idx: NonZeroU8::new(2).unwrap(),
             cat_ids: Default::default(),
         },
         "G" => SessionMode::Group {
@@ -381,6 +391,55 @@ fn run_d(ops: &str) -> String {
                     "none".into()
                 }
             }
+            "xr" => {
+                // a datagram that opens a new exchange on an unsecured session (the first one the
+                // receive path matches: peer address, session id 0): post_recv, and on
+                // NoSpaceExchanges the session is closed
+                now = Some(num(1));
+                rx_ctr += 1;
+                rx_exch += 1;
+                let mut hdr = PacketHdr::new();
+                hdr.plain.ctr = rx_ctr;
+                hdr.proto.exch_id = rx_exch;
+                hdr.proto.proto_id = PROTO;
+                hdr.proto.proto_opcode = 1;
+                hdr.proto.set_initiator();
+                hdr.proto.set_reliable();
+                let mut buf = [0u8; 128];
+                let (start, end) = {
+                    let mut wb = rs_matter::utils::storage::WriteBuf::new_with(&mut buf, 64, 64);
+                    wb.append(&[0x15, 0x18]).unwrap();
+                    hdr.encode(&crypto, None, 0, &mut wb).unwrap();
+                    (wb.get_start(), wb.get_tail())
+                };
+                let runner = matter.transport_runner(&crypto);
+                let r = e2e::block_on(runner.verif_rx_once(&buf[start..end], Address::new(), NullSend));
+                let after = table(&matter);
+                if after.len() < before.len() {
+                    let gone = before.iter().find(|r| !after.iter().any(|a| a.id == r.id)).unwrap();
+                    format!("closed{}", gone.id)
+                } else {
+                    let mut res = match r {
+                        Ok(true) => "?".to_string(),
+                        _ => "none".to_string(),
+                    };
+                    for b in &before {
+                        if let Some(a) = after.iter().find(|a| a.id == b.id) {
+                            if a.slots.len() > b.slots.len() {
+                                let i = a.slots.iter().find(|(i, _, _)| !b.slots.iter().any(|(j, _, _)| j == i)).unwrap().0;
+                                res = format!("ix{}", i);
+                            }
+                        }
+                    }
+                    res
+                }
+            }
+            "f" => {
+                let fab = NonZeroU8::new(num(1) as u8).unwrap();
+                let keep = if p[2] == "-" { None } else { Some(num(2) as u32) };
+                matter.with_state(|s| s.verif_sessions().remove_for_fabric(fab, keep));
+                "ok".into()
+            }
             "s" => {
                 now = Some(num(1));
                 let runner = matter.transport_runner(&crypto);
@@ -427,6 +486,15 @@ fn run_d(ops: &str) -> String {
     drop(exchanges);
     drop(handles);
     format!("{} | ev={}", out.trim_end(), if monitor.is_empty() { "-" } else { &monitor })
+}
+
+/// a sender that loses everything
+struct NullSend;
+
+impl rs_matter::transport::network::NetworkSend for NullSend {
+    async fn send_to(&mut self, _data: &[u8], _addr: Address) -> Result<(), Error> {
+        Ok(())
+    }
 }
 
 // ------------------------------------------------------------------ V / W: rendezvous
@@ -573,6 +641,7 @@ struct Snap {
     est: usize,
     plain: usize,
     total: usize,
+    idle: usize,
     marker: &'static str,
     rdv: (u8, u8),
     detail: String,
@@ -604,6 +673,7 @@ fn snapshot(matter: &Matter<'_>) -> Snap {
         est: t.iter().filter(|r| r.mode != 'N' && !r.reserved).count(),
         plain: t.iter().filter(|r| r.mode == 'N' && !r.reserved).count(),
         total: t.len(),
+        idle: t.iter().filter(|r| !r.reserved && r.slots.is_empty()).count(),
         marker,
         rdv: matter.transport().verif_rendezvous_state(),
         detail: rows.join(","),
@@ -681,7 +751,7 @@ async fn handshake<C: rs_matter::crypto::Crypto>(
         if t > 0 {
             Timer::after(Duration::from_millis(250)).await;
         }
-        let r: Option<Result<(), Error>> = e2e::with_timeout(6000, async {
+        let r: Option<Result<(), Error>> = e2e::with_timeout(3500, async {
             let ex = Exchange::initiate_plaintext(mt, crypto, peer).await?;
             if pase {
                 PaseInitiator::perform(ex, crypto, 20202021).await
@@ -710,17 +780,34 @@ fn run_e(f: &[&str]) -> String {
     let m = beh.len();
 
     // datagrams of source `src` with index >= cut[src] are lost
-    let cut: Rc<RefCell<BTreeMap<u16, usize>>> = Rc::new(RefCell::new(BTreeMap::new()));
+    // (`a<k>`: ... except its stand-alone acknowledgements: the initiator acknowledges, then is silent)
+    let cut: Rc<RefCell<BTreeMap<u16, (usize, bool)>>> = Rc::new(RefCell::new(BTreeMap::new()));
     for (i, b) in beh.iter().enumerate() {
         if let Some(k) = b.strip_prefix('s') {
-            cut.borrow_mut().insert(i as u16 + 1, k.parse().unwrap());
+            cut.borrow_mut().insert(i as u16 + 1, (k.parse().unwrap(), false));
+        }
+        if let Some(k) = b.strip_prefix('a') {
+            cut.borrow_mut().insert(i as u16 + 1, (k.parse().unwrap(), true));
         }
     }
     let cut2 = cut.clone();
-    let net = Net::new(move |src, _dst, idx, _b| match cut2.borrow().get(&src) {
-        Some(k) if idx >= *k => Action::Drop,
+    let net = Net::new(move |src, _dst, idx, b| match cut2.borrow().get(&src) {
+        Some((k, acks)) if idx >= *k => {
+            if *acks && is_standalone_ack(b) {
+                Action::Deliver
+            } else {
+                Action::Drop
+            }
+        }
         _ => Action::Deliver,
     });
+    let fill = field(f, "fill");
+    let (n_busy, n_idle): (usize, usize) = match fill.split_once('.') {
+        Some((a, b)) => (a.parse().unwrap_or(0), b.parse().unwrap_or(0)),
+        None => (0, 0),
+    };
+    let cancel_at: usize = field(f, "cx").parse().unwrap_or(0);
+    let quiet_wait: u32 = field(f, "qw").parse().unwrap_or(9000);
     let crypto = test_only_crypto();
     let det = e2e::dev_det(Some(40), Some(80));
     let dev = e2e::new_matter(det, false);
@@ -745,11 +832,54 @@ fn run_e(f: &[&str]) -> String {
     }
     let sc = SecureChannel::new(&crypto, &());
     let responder = Responder::new("dev-sc", sc, &dev, 0);
+    // established sessions that exist before the disturbance: `n_busy` carry an exchange for the
+    // whole run (held below), `n_idle` do not
+    let mut held: Vec<Exchange<'_>> = Vec::new();
+    for i in 0..(n_busy + n_idle) {
+        e2e::preset_case_session(
+            &dev,
+            &crypto,
+            DEV_NODE,
+            0x7000 + i as u64,
+            3000 + i as u16,
+            4000 + i as u16,
+            e2e::node_addr(200 + i as u16),
+            1,
+            Default::default(),
+        )
+        .unwrap();
+        if i < n_busy {
+            let id = table(&dev).last().unwrap().id;
+            held.push(Exchange::initiate_for_session(&dev, &crypto, id).unwrap());
+        }
+    }
+    let n_held = held.len();
+    let cancelled = Rc::new(core::cell::Cell::new(0usize));
 
     let line = e2e::block_on(async {
         let mut runners: Vec<BoxFut<'_, Result<(), Error>>> = Vec::new();
         runners.push(Box::pin(dev.run(&crypto, d_tx, d_rx, NoNetwork)));
-        runners.push(Box::pin(responder.run::<4>()));
+        {
+            // the device's handlers; with `cx=k` the whole responder future is dropped (all handlers
+            // cancelled at whatever await they are in) at its k-th poll after a handler has reserved
+            // its slot, and a fresh responder is started
+            let responder = &responder;
+            let dev = &dev;
+            let cancelled = cancelled.clone();
+            let mut cur: Option<BoxFut<'_, Result<(), Error>>> = Some(Box::pin(responder.run::<4>()));
+            let mut polls = 0usize;
+            runners.push(Box::pin(core::future::poll_fn(move |cx| {
+                if cancel_at > 0 && cancelled.get() == 0 && table(dev).iter().any(|r| r.reserved) {
+                    polls += 1;
+                    if polls >= cancel_at {
+                        cur = None;
+                        cancelled.set(1);
+                        cur = Some(Box::pin(responder.run::<4>()));
+                    }
+                }
+                cur.as_mut().unwrap().as_mut().poll(cx)
+            })));
+        }
         for (no, mt, _) in nodes.iter() {
             let (tx, rx) = net.attach(*no);
             runners.push(Box::pin(mt.run(&crypto, tx, rx, NoNetwork)));
@@ -808,11 +938,11 @@ fn run_e(f: &[&str]) -> String {
             // wait until the device is quiet: no reserved slot, no exchange, three polls in a row
             let mut quiet = 0;
             let mut waited = 0u32;
-            while waited < 9000 {
+            while waited < quiet_wait {
                 Timer::after(Duration::from_millis(50)).await;
                 waited += 50;
                 let s = snapshot(&dev);
-                if s.reserved == 0 && s.live == 0 && s.dropped == 0 {
+                if s.reserved == 0 && s.live == n_held && s.dropped == 0 {
                     quiet += 1;
                     if quiet >= 4 {
                         break;
@@ -825,6 +955,10 @@ fn run_e(f: &[&str]) -> String {
                 dev.with_state(|s| s.verif_pase().verif_age_session_marker(61));
             }
             let snap = snapshot(&dev);
+            if cancelled.get() == 0 {
+                // the cancellation point was not reached during the disturbance: it must not hit the probe
+                cancelled.set(2);
+            }
             // the probe: a legitimate initiator that honours Busy
             let (pno, pmt, pfab) = &nodes[m];
             let _ = pno; let (probe, tries) = handshake(pmt, &crypto, pase, peer, *pfab, 6).await;
@@ -833,15 +967,19 @@ fn run_e(f: &[&str]) -> String {
             let mut s = String::new();
             write!(
                 s,
-                "q={} res={} xl={} xd={} marker={} rdv={}{} probe={} | est={} plain={} total={} tries={} after:res={} est={} results=",
+                "q={} res={} xl={} xd={} marker={} rdv={}{} recl={} probe={} | w={} cx={} est={} plain={} total={} tries={} after:res={} est={} results=",
                 (quiet >= 4) as u8,
                 snap.reserved,
-                snap.live,
+                snap.live - n_held.min(snap.live),
                 snap.dropped,
                 snap.marker,
                 snap.rdv.0,
                 snap.rdv.1,
+                // slots a new handshake can get: free ones plus idle sessions
+                (MAX_SESSIONS - snap.total) + snap.idle,
                 probe,
+                waited / 1000,
+                (cancelled.get() == 1) as u8,
                 snap.est,
                 snap.plain,
                 snap.total,
@@ -868,7 +1006,25 @@ fn run_e(f: &[&str]) -> String {
             Either::Second(_) => "hang".to_string(),
         }
     });
+    drop(held);
     line
+}
+
+/// an unsecured MRP stand-alone acknowledgement (Secure Channel opcode 0x10)?
+fn is_standalone_ack(b: &[u8]) -> bool {
+    if b.len() < 8 || b[1] != 0 || b[2] != 0 {
+        return false; // not session 0
+    }
+    let mut off = 8;
+    if b[0] & 0x04 != 0 {
+        off += 8;
+    }
+    match b[0] & 0x03 {
+        1 => off += 8,
+        2 => off += 2,
+        _ => {}
+    }
+    b.len() >= off + 6 && b[off + 1] == 0x10 && b[off + 4] == 0 && b[off + 5] == 0
 }
 
 // ------------------------------------------------------------------ dispatcher
@@ -957,7 +1113,7 @@ fn gen_d(rng: &mut Rng, cap: usize, len: usize, style: u32) -> String {
             27..=31 => {
                 let hs: Vec<u32> = g.handles.iter().map(|h| h.0).collect();
                 let id = pick(rng, &hs, g.next);
-                format!("u:{}:{}:{}", id, *rng.pick(&["P", "C", "P", "N"]), now)
+                format!("u:{}:{}:{}", id, *rng.pick(&["P", "C", "P", "N", "D"]), now)
             }
             32..=36 => {
                 let hs: Vec<u32> = g.handles.iter().map(|h| h.0).collect();
@@ -978,10 +1134,14 @@ fn gen_d(rng: &mut Rng, cap: usize, len: usize, style: u32) -> String {
                 let t = if rng.chance(1, 2) { "F".to_string() } else { rng.below(clock).to_string() };
                 format!("L:{}:{}", pick(rng, &g.live, g.next), t)
             }
-            70..=72 => format!("M:{}:{}", pick(rng, &g.live, g.next), *rng.pick(&["P", "C", "N", "P"])),
-            73..=75 => {
-                if rng.chance(1, 2) { "p:-".to_string() } else { format!("p:{}", pick(rng, &g.live, g.next)) }
-            }
+            70..=72 => format!("M:{}:{}", pick(rng, &g.live, g.next), *rng.pick(&["P", "C", "N", "P", "D", "G"])),
+            73..=75 => match rng.below(5) {
+                0 => "p:-".to_string(),
+                1 => format!("p:{}", pick(rng, &g.live, g.next)),
+                2 => format!("f:{}:-", 1 + rng.below(2)),
+                _ => format!("f:{}:{}", 1 + rng.below(2), pick(rng, &g.live, g.next)),
+            },
+            76..=86 if rng.chance(1, 4) => format!("xr:{}", now),
             76..=86 => {
                 let id = pick(rng, &g.live, g.next);
                 let pending = rng.chance(1, 3);
@@ -1068,6 +1228,12 @@ fn generate(tier: &str, seed: u64) -> Vec<String> {
         push(&mut cases, "D", n, "a:2,a:3,xa:0:0:4,xa:1:0:5,xd:1:0:01:6,xd:0:0:11:7,s:8,s:9,s:10".into());
         push(&mut cases, "D", n, "a:2,E:0,xa:0:0:3,xa:0:1:4,r:5,xa:1:1:6,xa:1:0:7,xd:1:0:00:8".into());
         push(&mut cases, "D", n, "a:2,xa:0:0:3,x:0,xd:0:0:00:5,a:6".into());
+        // receive path: new exchanges on the first unsecured session; the sixth closes the session
+        push(&mut cases, "D", n, "a:2,xr:3,xr:4,xr:5,xr:6,xr:7,xr:8,a:9,xr:10".into());
+        push(&mut cases, "D", n, "r:2,a:3,E:1,xr:4,M:1:C,xr:5,a:6,xa:2:0:7,xr:8,xr:9".into());
+        // remove_for_fabric: every session of the fabric but the kept one, reserved ones included
+        push(&mut cases, "D", n, "a:2,a:3,M:0:C,M:1:D,r:5,u:2:C:6,f:1:-,c:2,d:2:8,f:2:1,e:9".into());
+        push(&mut cases, "D", n, "a:2,a:3,a:4,M:0:C,M:1:C,M:2:G,f:1:1,e:7,e:8".into());
     }
     // table full: reserve evicts an idle session, refuses when none is idle
     let fill3 = "a:2,a:3,a:4";
@@ -1119,6 +1285,27 @@ fn generate(tier: &str, seed: u64) -> Vec<String> {
         e2e_cases.push((n, "k=P beh=s3.s2.s1.f conc=0 g=1 j=1 age=0".into()));
         e2e_cases.push((n, "k=P beh= conc=0 g=6 j=0 age=0".into()));
         e2e_cases.push((n, "k=P beh=s2 conc=0 g=0 j=4 age=1".into()));
+        // table full before the handshake: all but r sessions carry an exchange (r = 0, 1, 2 reclaimable)
+        for k in ["P", "C"] {
+            e2e_cases.push((n, format!("k={} beh= conc=0 g=0 j=0 age=0 fill={}.1", k, n - 1)));
+            e2e_cases.push((n, format!("k={} beh= conc=0 g=0 j=0 age=0 fill={}.2", k, n - 2)));
+        }
+        e2e_cases.push((n, format!("k=P beh= conc=0 g=0 j=0 age=0 fill={}.0", n)));
+        e2e_cases.push((n, format!("k=C beh=s1 conc=0 g=0 j=0 age=0 fill={}.3", n - 3)));
+        // the device's handler futures are dropped at their k-th poll after `reserve`
+        let cxs: &[usize] = if thorough { &[1, 2, 3, 4, 5, 6, 8, 11, 15] } else { &[1, 2, 4, 7] };
+        for cx in cxs {
+            e2e_cases.push((n, format!("k=P beh=f conc=0 g=0 j=0 age=1 cx={}", cx)));
+            e2e_cases.push((n, format!("k=C beh=f conc=0 g=0 j=0 age=1 cx={}", cx)));
+        }
+        // the initiator acknowledges the answer and then falls silent: the handler's receive time-out (30 s + ladders)
+        if n == 16 || thorough {
+            e2e_cases.push((n, "k=P beh=a1 conc=0 g=0 j=0 age=0 qw=45000".into()));
+        }
+        if thorough {
+            e2e_cases.push((n, "k=P beh=a2 conc=0 g=0 j=0 age=0 qw=45000".into()));
+            e2e_cases.push((n, "k=C beh=a1 conc=0 g=0 j=0 age=0 qw=45000".into()));
+        }
     }
     if thorough {
         for i in 0..40 {
